@@ -4,6 +4,9 @@ spec/Ring.tla, spec/MultiTask.tla; TLC checks Fifo / Positional / NeverUnwritten
 TaskIsolation exhaustively for small capacities; every transition of the
 reachable state graph is replayed into ReplayBuffer, LAP,
 PrioritizedReplayBuffer and MultiTaskReplayBuffer (transition coverage).
+Every add_sample call is spelled the way TLC chooses (AddAs of the specs: Python type carrying the values of the
+float fields, integral or fractional values, keyword order), and the graph is covered again behind every other
+spelling of an object's first call (the call that allocates the storage).
 """
 from __future__ import annotations
 
@@ -17,12 +20,16 @@ from ..graph import Mismatch
 LEVEL = "model_checking"
 MANIFEST = dict(
     category="model_checking",
-    text="TLC checks Fifo/Positional/NeverUnwritten/TaskIsolation on the complete state graph of Ring.tla and MultiTask.tla for small capacities; every transition of that graph is replayed into ReplayBuffer, LAP, PrioritizedReplayBuffer and MultiTaskReplayBuffer with tagged whole-row transitions in four field/dtype profiles, comparing the projected state and sampled rows after every step. Small-scope exhaustive, which fits a data structure whose behaviour is uniform in capacity.",
+    text="TLC checks Fifo/Positional/NeverUnwritten/TaskIsolation on the complete state graph of Ring.tla and MultiTask.tla for small capacities; every transition of that graph is replayed into ReplayBuffer, LAP, PrioritizedReplayBuffer and MultiTaskReplayBuffer with tagged whole-row transitions in four field/dtype profiles, every add_sample call spelled as TLC chooses (float / Python int / int64 / uint8 / jax int32 values for float fields, integral or fractional, keyword order declared / reversed / equal shapes exchanged) and the graph re-covered behind every spelling of an object's first call, comparing the projected state (ids, storage dtype, exact content of what was passed cast to the documented dtype) and sampled rows after every step. Small-scope exhaustive, which fits a data structure whose behaviour is uniform in capacity.",
     note="bounded capacities (N<=3 quick, <=5 thorough + long simulated runs); trusted: harness/bufkit.py tag coding/projection, stub generator, TLC",
     technique="TLA+ spec + TLC exhaustive state graph; transition-coverage replay into the real buffers",
 )
 RING_INVS = ["TypeOK", "Fifo", "Positional", "NeverUnwritten", "SampleSound"]
 MT_INVS = ["PerTaskFifo", "ActiveExact", "ActiveHasData", "SelValid"]
+
+
+def canon_args(a):
+    return graph.canon(a)
 
 
 def _classes():
@@ -35,7 +42,8 @@ class RingAdapter:
     def __init__(self, cls_name, profile, n):
         cls = _classes()[cls_name]
         self.kind = cls_name
-        self.profile = profile
+        # remembers how every transition was spelled (value form, fractional or not, keyword order): AddAs of the spec
+        profile = self.profile = bufkit.spelled(profile)
         if profile.name.startswith("default"):
             self.buf = cls(n, discrete_actions=profile.name.endswith("discrete"))
         else:
@@ -88,9 +96,18 @@ def real_rng_sample(buf, kind, profile, stored_ids, seed, b=8):
             raise Mismatch(f"sampled transition {i} is not among the stored transitions {sorted(stored_ids)}")
 
 
+def spell(profile, args):
+    """Keyword arguments of the add_sample call the model chose: Add <<id>> (float values, declared keyword order)
+    or AddAs <<id, form, half, ord>>."""
+    if len(args) == 1:
+        return profile.encode(args[0])
+    i, form, half, order = args
+    return profile.encode_as(i, form, half, order)
+
+
 def ring_step(ad: RingAdapter, op, args, exp, pre, post, seed=0):
     if op == "Add":
-        ad.buf.add_sample(**ad.profile.encode(args[0]))
+        ad.buf.add_sample(**spell(ad.profile, args))
     elif op == "Sample":
         idx, mlen = args
         if getattr(ad, "reweighed", False):
@@ -131,6 +148,61 @@ def ring_project(ad: RingAdapter):
     return {"store": store, "ins": ins, "len": ln, "cnt": cnt}
 
 
+def after_first_call(G, root, first, factory, step, project, max_edges):
+    """Transition coverage of the graph behind ONE first call.
+
+    The storage is allocated by the first add_sample of an object, so how that call was spelled is state the
+    implementation may keep although the model has none (all spellings lead to the same model state, and cover()
+    continues from that state with the object of the first edge only).  Here the object has taken the Add edge
+    `first` of the initial state - any spelling TLC chose - and every transition behind it is tested against it."""
+    op, args, exp, k1 = first
+    head = {"op": op, "args": args, "exp": exp}
+
+    def fac():
+        ad = factory()
+        try:
+            step(ad, op, args, exp, G.state[root], G.state[k1])
+        except Mismatch:
+            raise
+        except Exception as ex:  # the code under test raised where the model defines a result
+            raise Mismatch(f"exception {type(ex).__name__}: {str(ex)[:120]}", code=f"exception:{type(ex).__name__}:add_sample")
+        return ad
+
+    res = graph.cover(G, k1, fac, step, project, max_edges=max_edges)
+    for v in res["violations"]:
+        if v["path"] and v["path"][0]["op"] == "<construct>":  # the first call itself left the object in a wrong state
+            v["path"] = [head]
+            v["what"] = v["what"].replace("fresh object: ", "").replace("a freshly constructed object", "the object after its first add_sample")
+            v["code"] = v["code"].replace("initial:", "")
+        else:
+            v["path"] = [head] + v["path"]
+            v["what"] += f" (first call of the object spelled {args[1:]})"
+    return res
+
+
+def binding_canary():
+    """A stored row whose float field lost its fraction, and a row written into the wrong fields, must be noticed."""
+    ad = RingAdapter("ReplayBuffer", bufkit.profiles()[3], 2)
+    try:
+        ring_step(ad, "Add", [1, "pyint", 0, 0], [], None, None)
+        ring_step(ad, "Add", [2, "float", 1, 1], [], None, None)
+        ring_project(ad)
+    except Exception:
+        return  # the code under test already deviates on this history: reported by the check proper
+    for corrupt in ("truncate", "misplace"):
+        bad = copy.deepcopy(ad)
+        x, y = bad.buf.buffer["x"], bad.buf.buffer["y"]
+        if corrupt == "truncate":
+            y[1] = np.trunc(y[1])
+        else:
+            x[1], y[1] = y[1], x[1] + 1
+        try:
+            ring_project(bad)
+        except Mismatch:
+            continue
+        raise tlc.MachineryError(f"binding canary: a stored row corrupted by '{corrupt}' is not noticed by the projection")
+
+
 # ---------------------------------------------------------------- multi-task
 SPARSE_IDS = [8, 0, 9]  # ids that collide modulo 8 (hash-table order of a small-int set depends on insertion order)
 
@@ -144,7 +216,7 @@ class MTAdapter:
 
         self.inner = RingAdapter(cls_name, profile, n)
         self.kind = cls_name
-        self.profile = profile
+        profile = self.profile = self.inner.profile
         self.k = k
         self.taskmap = list(taskmap) if taskmap else list(range(k))
         assert len(self.taskmap) == k and len(set(self.taskmap)) == k
@@ -176,7 +248,7 @@ def mt_step(ad: MTAdapter, op, args, exp, pre, post):
         if res != exp:
             raise Mismatch(f"select_task({k}) -> {res}, model {exp}")
     elif op == "Add":
-        ad.mt.add_sample(**ad.profile.encode(args[0]))
+        ad.mt.add_sample(**spell(ad.profile, args))
         ad.cnt = args[0]
         ad.hist_len[ad.model(ad.mt.selected_task)] += 1
     elif op == "Sample":
@@ -237,26 +309,37 @@ def run(rep):
     tlc.sany("MultiTask")
     caps = [1, 2, 3] if quick else [1, 2, 3, 4, 5]
     rep.rule = (
-        "TLC enumerates the complete reachable state graph of Ring (N in %s, adds <= 2N+2, batch <= 2) and MultiTask; "
-        "every transition (distinct pre-state, operation, arguments) is replayed once into each real buffer class x field profile; "
+        "TLC enumerates the complete reachable state graph of Ring (N in %s, adds <= 2N+2, batch <= 2) and MultiTask, every add_sample "
+        "call spelled in every way of the spec's Spellings (value form of float fields: float / Python int / int64 / uint8 / jax int32, "
+        "integral or fractional values, keyword order declared / reversed / equal shapes exchanged); "
+        "every transition (distinct pre-state, operation, arguments) is replayed once into each real buffer class x field profile, "
+        "and the graph is covered again behind every other spelling of an object's first call; "
         "a case is non-trivial when the pre-state is non-empty" % caps
     )
     edges_total = 0
     nontrivial = 0
+    binding_canary()
+    # every add_sample call is spelled in every way the specification lists (value form x fractional x keyword order;
+    # quick: one dimension at a time)
+    ring_next = "NextCalls" if quick else "NextCallsFull"
+    first_calls = 0
     for n in caps:
         c = dict(N=n, MaxAdds=2 * n + 2, MaxBatch=2, EMIT=False)
-        r = tlc.run("Ring", tlc.cfg_text(constants=c, invariants=RING_INVS), coverage=True, tag=f"ring{n}")
+        r = tlc.run("Ring", tlc.cfg_text(next=ring_next, constants=c, invariants=RING_INVS), coverage=True, tag=f"ring{n}")
         rep.add_tlc(r, f"Ring N={n} invariants")
         if not r.ok:
             rep.violation(f"spec:Ring:{r.violated}", f"design-level violation of {r.violated} in Ring N={n}", r.error_trace)
             continue
-        tlc.require_covered(r, ["Add"])
+        tlc.require_covered(r, ["AddAs"])
         c["EMIT"] = True
-        g = tlc.run("Ring", tlc.cfg_text(constants=c), workers=1, tag=f"ringgen{n}")
+        g = tlc.run("Ring", tlc.cfg_text(next=ring_next, constants=c), workers=1, tag=f"ringgen{n}")
         G = graph.Graph(g.emitted)
         root = G.roots()[0]
+        firsts = [e for e in G.out[root] if e[0] == "Add"]
+        if len({canon_args(e[1][1:]) for e in firsts}) != len(firsts) or len(firsts) < 10:
+            raise tlc.MachineryError(f"Ring N={n}: {len(firsts)} spellings of the first call emitted")
         for cls in _classes():
-            for prof in bufkit.profiles():
+            for pi, prof in enumerate(bufkit.profiles()):
                 res = graph.cover(
                     G,
                     root,
@@ -272,6 +355,16 @@ def run(rep):
                                    n=12, max_len=4 * n + 8, seed=rep.seed + n)
                 rep.traces += wres["walks"]
                 res["violations"] += wres["violations"]
+                # the whole graph again behind every other spelling of the FIRST call (cover() continues with firsts[0])
+                if (n == 2 and pi != 1) or not quick:
+                    for first in firsts[1:]:
+                        fres = after_first_call(G, root, first, lambda: RingAdapter(cls, prof, n),
+                                                lambda o, op, a, e, pre, post: ring_step(o, op, a, e, pre, post, rep.seed),
+                                                ring_project, max_edges=26 if quick else 60)
+                        edges_total += fres["edges_tested"]
+                        rep.traces += fres["edges_tested"]
+                        first_calls += 1
+                        res["violations"] += fres["violations"]
                 for v in res["violations"]:
                     rep.violation(
                         f"{cls}:{v['path'][-1]['op']}:{v['code']}",
@@ -285,20 +378,24 @@ def run(rep):
     r = tlc.run("Ring", tlc.cfg_text(next="NextBad", constants=c, invariants=["Fifo"]), tag="ringbad")
     if r.violated != "Fifo":
         raise tlc.MachineryError("canary: off-by-one wrap deviation not refuted by Fifo")
+    rep.extra["first_call_spellings_covered"] = first_calls
 
     # multi-task
     # three tasks are needed to tell per-task copies from one shared copy for tasks >= 1
     mts = [(2, 2, 5), (3, 2, 4)] if quick else [(2, 2, 6), (3, 2, 5), (2, 3, 7)]
-    for k, n, m in mts:
+    for mi, (k, n, m) in enumerate(mts):
+        # spelled add_sample calls (every task's ring allocates on the first call routed to it); quick: first configuration
+        spelled_mt = mi == 0 or not quick
+        mt_next = "NextCalls" if spelled_mt else "Next"
         c = dict(K=k, N=n, MaxAdds=m, MaxBatch=2, EMIT=False)
-        r = tlc.run("MultiTask", tlc.cfg_text(constants=c, invariants=MT_INVS, properties=["TaskIsolation"]), coverage=True, tag="mt")
+        r = tlc.run("MultiTask", tlc.cfg_text(next=mt_next, constants=c, invariants=MT_INVS, properties=["TaskIsolation"]), coverage=True, tag="mt")
         rep.add_tlc(r, f"MultiTask K={k} N={n}")
         if not r.ok:
             rep.violation(f"spec:MultiTask:{r.violated}", f"design-level violation {r.violated}", r.error_trace)
             continue
-        tlc.require_covered(r, ["Add", "Select"])
+        tlc.require_covered(r, ["AddAs" if spelled_mt else "Add", "Select"])
         c["EMIT"] = True
-        g = tlc.run("MultiTask", tlc.cfg_text(constants=c), workers=1, tag="mtgen")
+        g = tlc.run("MultiTask", tlc.cfg_text(next=mt_next, constants=c), workers=1, tag="mtgen")
         G = graph.Graph(g.emitted)
         root = G.roots()[0]
         for cls in _classes():
@@ -324,7 +421,7 @@ def run(rep):
     if not quick:
         # long random behaviours beyond the exhaustive bound
         c = dict(N=4, MaxAdds=60, MaxBatch=2, EMIT=True)
-        g = tlc.run("Ring", tlc.cfg_text(constants=c), workers=1, simulate="num=40", depth=80, seed=rep.seed + 1, tag="ringsim")
+        g = tlc.run("Ring", tlc.cfg_text(next="NextCallsFull", constants=c), workers=1, simulate="num=40", depth=80, seed=rep.seed + 1, tag="ringsim")
         G = graph.Graph(g.emitted)
         for cls in _classes():
             res = graph.cover(G, G.roots()[0], lambda: RingAdapter(cls, bufkit.default_profile(), 4), ring_step, ring_project)
@@ -339,6 +436,7 @@ def run(rep):
     rep.assumptions += [
         "capacities beyond the bound are not explored (small-scope)",
         "PrioritizedReplayBuffer index-directed sampling only for batch size 1 (strata); larger batches by membership under a real generator",
+        "spellings of add_sample: quick tier varies value form and keyword order one at a time (SpellingsPairwise), integer / bool fields always receive Python ints; the graph behind a non-default first call is covered to a bounded depth",
         "trusted: harness/bufkit.py id coding and projection, TLC",
     ]
 
